@@ -112,7 +112,7 @@ func (w *w3World) Gen(rng *rand.Rand, property, tier string) (any, simrt.Sched) 
 		if b.Phases[0].Frames > 30 {
 			b.Phases[0].Frames = 30
 		}
-	case "C29":
+	case "C29", "C40":
 		// spans are compared in absolute time: keep the recorded timeline monotonic
 		for i := range b.Phases {
 			if b.Phases[i].NTPJumpMs < 0 {
